@@ -13,7 +13,7 @@
 (*                      by RobustTrace equals exact reachability in the    *)
 (*                      abstract machine, for all small sequences.         *)
 EXTENDS IterProto, TLC
-CONSTANTS Fams, MaxN, MaxM, MaxF
+CONSTANTS Fams, MaxN, MaxM, MaxF, LemmaRuns, LemmaV
 VARIABLES fam, c, res, steps, i0, errSeen
 vars == <<fam, c, res, steps, i0, errSeen>>
 
@@ -46,7 +46,7 @@ Bounded == steps + Rank(fam, c) + c.f <= i0.n + i0.f
 (* Only for the "count" family: is the number of results bounded by the    *)
 (* number of table BYTES (the input size)?  Not unless the header's count  *)
 (* is validated against the table length - see MCIterProto_cnt.cfg.        *)
-InputBounded == fam = "count" => steps <= i0.m + i0.f
+InputBounded == fam = "count" => steps <= i0.m + i0.f + 2
 
 StepOK == (<<AbsOf(fam, c'), res'>> \in AbsSucc(FusedFamily(fam), AbsOf(fam, c)))
 Refines == [][StepOK]_vars
@@ -54,16 +54,25 @@ Refines == [][StepOK]_vars
 Terminates == <>[](res = None)
 
 -----------------------------------------------------------------------------
-(* Fold = reachability, on every run-length sequence of up to 3 runs with  *)
-(* counts 0..3, variants 0..3, faults 0..1, both families.                 *)
+(* Fold = reachability, on every run-length sequence of up to LemmaRuns    *)
+(* (<= 3) runs with counts 0..3, variants 0..LemmaV, faults 0..1, both     *)
+(* families.  LemmaRuns = 0 skips the lemma (expected-failure configs).    *)
 RunSet == {<<r, k>> : r \in Results, k \in 0..3}
-SmallRuns == {<<>>} \cup {<<a>> : a \in RunSet} \cup {<<a, b>> : a, b \in RunSet}
-             \cup {<<a, b, d>> : a, b, d \in RunSet}
+SmallRuns == {<<>>} \cup {<<a>> : a \in RunSet}
+             \cup (IF LemmaRuns >= 2 THEN {<<a, b>> : a, b \in RunSet} ELSE {})
+             \cup (IF LemmaRuns >= 3 THEN {<<a, b, d>> : a, b, d \in RunSet} ELSE {})
 
 FoldLemma ==
-    \A fused \in BOOLEAN, v \in 0..3, f \in 0..1, runs \in SmallRuns :
+    \A fused \in BOOLEAN, v \in 0..LemmaV, f \in 0..1, runs \in SmallRuns :
         (~Fold(fused, Live(v, f), runs).rej) = Behaves(fused, v, f, Expand(runs))
 
-ASSUME PrintT(<<"LEMMA", "FoldLemma", FoldLemma>>)
-ASSUME FoldLemma
+(* Accept is monotone in the bound: a sequence accepted for a variant v is  *)
+(* accepted for every larger variant (the driver validates, per distinct   *)
+(* result sequence, the instance with the smallest bound first).           *)
+MonoLemma ==
+    \A fused \in BOOLEAN, v \in 0..LemmaV, w \in 0..LemmaV, f \in 0..1, runs \in SmallRuns :
+        (v <= w /\ Accept(fused, v, f, runs)) => Accept(fused, w, f, runs)
+
+ASSUME LemmaRuns = 0 \/ FoldLemma
+ASSUME LemmaRuns = 0 \/ MonoLemma
 =============================================================================
